@@ -103,6 +103,8 @@ Apply(x, e) ==
     \* pause_writing / resume_writing from the transport: the connection does no buffering of its own, keeps
     \* its timers and its view of the peer - nothing changes
     [] e.c = "EnvFlow"        -> {Begin(x)}
+    \* the loop was blocked until now: nothing ran; the timers that fell due meanwhile fire late, at this instant
+    [] e.c = "EnvStall"       -> {Begin(x)}
     [] e.c = "UserSub"        -> {UserSub(x, e.a.id, e.a.kind, e.a.script)}
     [] e.c = "UserUnsub"      -> {UserUnsub(x, e.a.id)}
     \* a library callback: some enabled internal action, or a relay hop that changes
@@ -118,10 +120,10 @@ Pre(x) == IF x.st.pc = "tcp" /\ x.st.wake = "SocketAPIError" /\ x.st.pass < x.na
 TStep ==
   /\ l <= Len(T.rows)
   /\ LET e == T.rows[l] IN
-       /\ \/ /\ CanAdvance(s, e.t)
+       /\ \/ /\ CanAdvance(s, e.t) \/ (e.c = "EnvStall" /\ e.t >= s.now)       \* (only a stall may pass a deadline)
              /\ \E x1 \in Pre(Advance(s, e.t)) : \E y \in Apply(x1, e) : Match(y, e) /\ s' = y
           \* diagnosis of an unexplained row: which projected fields differ (per candidate)
-          \/ /\ ~(CanAdvance(s, e.t) /\ \E x1 \in Pre(Advance(s, e.t)) : \E y \in Apply(x1, e) : Match(y, e))
+          \/ /\ ~((CanAdvance(s, e.t) \/ (e.c = "EnvStall" /\ e.t >= s.now)) /\ \E x1 \in Pre(Advance(s, e.t)) : \E y \in Apply(x1, e) : Match(y, e))
              /\ PrintT(<<"DIAG", tid, l,
                          IF ~CanAdvance(s, e.t) THEN {{"skipped_timer"}}
                          ELSE IF Apply(Advance(s, e.t), e) = {} THEN {{"not_enabled"}}
